@@ -6,9 +6,13 @@
    draws from (type, required, enum, minimum/maximum, properties, additionalProperties:false,
    items), differentially tested against the real library on every (schema, value) pair the
    correspondence run uses.  [SInvalid] stands for schema bytes that do not parse or compile:
-   ValidateAgainstSingleSchema returns an error for every value. *)
+   ValidateAgainstSingleSchema returns an error for every value.
+
+   Round 4: [SDoc d] is a schema given by its JSON document d, evaluated by the model of the
+   library in Values/Schema2.v (dialect from "$schema" - Helm's default is 2020-12 -, the
+   metaschema check, and the keywords listed there); [SNode] stays as the small typed family. *)
 From Coq Require Import List String Bool ZArith.
-From Helm Require Import Values.Tree.
+From Helm Require Import Values.Tree Values.Schema2.
 Import ListNotations.
 
 Inductive jtype := TObject | TArray | TString | TInteger | TNumber | TBoolean | TNull.
@@ -21,7 +25,8 @@ Inductive schema :=
         (minimum maximum : option Z)
         (props : list (string * schema))
         (additional : bool)              (* false = "additionalProperties": false *)
-        (items : option schema).
+        (items : option schema)
+| SDoc (doc : val).                      (* the parsed values.schema.json *)
 
 Definition SAny : schema := SNode None [] None None None [] true None.
 
@@ -44,6 +49,7 @@ Definition opt_all {A} (o : option A) (f : A -> bool) : bool :=
 Fixpoint valid (s : schema) (v : val) {struct s} : bool :=
   match s with
   | SInvalid => false
+  | SDoc d => match doc_verdict d v with VOk => true | _ => false end
   | SNode ty required enum minimum maximum props additional items =>
       opt_all ty (fun t => type_ok t v)
       && opt_all enum (fun vs => existsb (fun e => val_equiv_b e v) vs)
